@@ -1,6 +1,7 @@
 import Grip.Drv.Common
 import Grip.Drv.C03
 import Grip.Model.C17
+import Grip.Model.C04
 import Grip.Spec.C17
 
 namespace Grip.Drv.C17
@@ -50,6 +51,14 @@ def maxInterleavings : Nat := 40000
 def step (st : St) (j : Json) : St × Json :=
   match str? j "op" with
   | some "reset" => ({}, Json.mkObj [("r", "ok")])
+  | some "units" =>
+    -- number of top-level store writes of one edit on the state reached by `hist` (C04's write
+    -- lists); `atomic_ops_serializable` treats every session edit as one atomic step
+    match (arr? j "hist").bind opsOf?, (val? j "call").bind Grip.Drv.C03.opOf? with
+    | some hist, some call =>
+      let s := Grip.C03.run {} hist
+      (st, Json.mkObj [("units", Json.num ⟨(Grip.C04.writes s call).length, 0⟩)])
+    | _, _ => (st, Drv.bad "units: hist/call")
   | some "lockset" =>
     (st, Json.mkObj [("unexplained", Json.arr (badPairNames.map Json.str).toArray),
                      ("stale", Json.num ⟨staleEntries.length, 0⟩)])
